@@ -3,7 +3,9 @@
 Implementation side: a generated grammar with 2..5 leaf classes whose `name` comes
 from ID (required / optional), STRING, a user match rule (`Dotted: ID('.'ID)*;`),
 the case's numeric rule (INT | FLOAT | BOOL | NUMBER) or is absent, 0..3 abstract
-targets built from simple alternatives (`A0: L0 | L1;`, nested), the all-embracing
+targets (`A0: L0 | L1;`, nested, 1..3 rule alternatives — plain or with string matches around
+the reference `'(' L1 ')'` — and match alternatives `INT`, `STRING`, `Dotted`, `'nil'` … at any
+position, in front of the common alternatives too), the all-embracing
 `Elem` and `OBJECT` targets, and reference rules with a single-valued
 (`one=[T]`, `one=[T|STRING]`, `one=[T|INT]` …) and a list (`many+=[T|Rule][',']`)
 attribute per target and match rule.  A generated model tree (nested named
@@ -12,7 +14,10 @@ across classes and kinds; the pools contain the falsy values `""`, `0`, `0.0`,
 `false`), a builtins dictionary (keys of any kind; instances of metamodel classes
 whose own name may differ from the key, and a foreign Python object) and 1..5
 references are loaded through `metamodel_from_str(...).model_from_str(...)`
-with the default scope provider — optionally with `textx_tools_support`, with
+with the default scope provider; the builtins reach the metamodel as the complete dict at
+construction, as an empty dict that the user fills afterwards (the usual pattern when the
+builtin objects are instances of the metamodel's own classes), partly filled, filled
+between two models, by `mm.builtins = ...`, or as None (`bmode_of`) — optionally with `textx_tools_support`, with
 user classes whose instances are falsy (`__len__` == 0), and after another model
 (same shape, other names) was loaded with the same metamodel.
 Observed: the resolved attribute values as object identities (pre-order number
@@ -112,9 +117,53 @@ def closure(case, t):
     if t[0] == "A":
         out = set()
         for alt in case["abstracts"][int(t[1:])]:
-            out |= closure(case, alt)
+            r = alt_rule(alt)
+            if r is not None:  # a match alternative (INT, 'kw', Dotted ...) contributes no class
+                out |= closure(case, r)
         return out
     raise ValueError(t)
+
+
+# alternatives of an abstract rule: "L2" / "A0" (a rule reference), a match alternative (base type, the user
+# match rule Dotted, a string match like "'nil'") or a sequence of string matches around exactly one rule
+# reference (["'('", "L1", "')'"]) — the documented shapes of an abstract rule's alternatives
+MATCH_ALTS = ["INT", "STRING", "ID", "FLOAT", "BOOL", "NUMBER", "Dotted", "'nil'"]
+
+
+def is_rule_ref(a):
+    return isinstance(a, str) and a[0] in "LA" and a[1:].isdigit()
+
+
+def alt_rule(alt):
+    """the common / abstract rule an alternative refers to (None: a match alternative)"""
+    if isinstance(alt, list):
+        rs = [a for a in alt if is_rule_ref(a)]
+        return rs[0] if rs else None
+    return alt if is_rule_ref(alt) else None
+
+
+def alt_text(alt):
+    return " ".join(alt) if isinstance(alt, list) else alt
+
+
+def bmode_of(case):
+    """how the builtins reach the metamodel:
+    ctor   — the complete dict is handed to metamodel_from_str(builtins=...)
+    late   — an *empty* dict is handed over and filled afterwards through the user's own reference
+    part   — the dict holds the first `bsplit` entries at construction, the rest is added afterwards
+    hist   — empty at construction, filled after the prior model was loaded (= late without a prior model)
+    assign — `mm.builtins = dict` after construction
+    none   — (no entries) builtins=None
+    Entries that are instances of *generated* metamodel classes can only be created once the metamodel exists:
+    ctor / part then degrade to late / the foreign entries first."""
+    m = case.get("bmode")
+    if m is None:
+        m = "ctor" if case.get("user") else "assign"
+    if m == "none" and case["builtins"]:
+        m = "late"
+    if m == "ctor" and not case.get("user") and any(b[1] != "foreign" for b in case["builtins"]):
+        m = "late"
+    return m
 
 
 def conforms(case, c, t):
@@ -143,8 +192,8 @@ def grammar_of(case):
     alts = [f"L{k}" for k in range(n)] + [f"{m}{KLET[k]}_{t}" for t, k, m in rrules]
     lines.append("Elem: " + " | ".join(alts) + ";")
     for j, a in enumerate(case["abstracts"]):
-        lines.append(f"A{j}: " + " | ".join(a) + ";")
-    dotted = any(k == "dot" for _, k, _ in rrules)
+        lines.append(f"A{j}: " + " | ".join(alt_text(x) for x in a) + ";")
+    dotted = any(k == "dot" for _, k, _ in rrules) or any("Dotted" in a for a in case["abstracts"])
     for k, mode in enumerate(case["leaves"]):
         head = {"req": "name=ID", "opt": "('named' name=ID)?", "none": "v=INT", "str": "name=STRING",
                 "dot": "name=Dotted", "num": "name=" + numrule}[mode]
@@ -342,11 +391,14 @@ class Prop(Check):
     QUICK_CASES = 800
     THOROUGH_CASES = 40000
     RULE = ("generated grammar (2..5 leaf classes whose name is ID required / ID optional / absent / STRING / a user match "
-            "rule / the case's numeric rule INT|FLOAT|BOOL|NUMBER, 0..3 nested abstract targets from simple alternatives, "
-            "Elem and OBJECT targets) x model tree of 2..12 objects named from per-kind pools of 2..6 values that share "
+            "rule / the case's numeric rule INT|FLOAT|BOOL|NUMBER, 0..3 nested abstract targets with 1..3 rule alternatives "
+            "(plain or string matches around the reference) and 0..2 match alternatives (base type / user match rule / "
+            "string match) at any position, Elem and OBJECT targets) x model tree of 2..12 objects named from per-kind pools of 2..6 values that share "
             "names across kinds and contain the falsy values '' / 0 / 0.0 / false x builtins dict (0..3 entries, keys of "
             "any kind: metamodel-class instances whose own name may differ from the key, foreign object; generated or "
-            "user classes, user instances optionally falsy) x 1..5 references in single and list attributes with the "
+            "user classes, user instances optionally falsy; handed over complete at construction / as an empty or partly filled dict "
+            "that is filled afterwards through the user's reference / filled between two models / assigned to "
+            "mm.builtins / None) x 1..5 references in single and list attributes with the "
             "match rule of any kind (unique / dangling / ambiguous / builtins) x textx_tools_support on/off x another "
             "model loaded before with the same metamodel or not; "
             "non-trivial = some reference's name is carried by >= 2 objects (model or builtins) or by none, so that "
@@ -378,7 +430,16 @@ class Prop(Check):
         abstracts = []
         for j in range(rng.weighted([(0, 1), (1, 3), (2, 3), (3, 1)])):
             cand = [f"L{k}" for k in range(nleaf)] + [f"A{i}" for i in range(j)]
-            alts = rng.sample(cand, rng.randint(2, min(3, len(cand))))
+            alts = rng.sample(cand, rng.randint(1 if rng.chance(0.1) else 2, min(3, len(cand))))
+            # shape of the alternatives: plain rule reference, or string matches around the reference
+            for i, a in enumerate(alts):
+                if rng.chance(0.15):
+                    alts[i] = rng.choice([["'('", a, "')'"], ["'the'", a], [a, "'!'"]])
+            # match alternatives (base types, user match rule, string match) anywhere between the common ones —
+            # in front of them too: numbers / strings are values of the abstract rule that cannot be referenced
+            if rng.chance(0.45):
+                for _ in range(rng.randint(1, 2)):
+                    alts.insert(rng.below(len(alts) + 1), rng.choice(MATCH_ALTS))
             abstracts.append(alts)
         numkind = rng.weighted([("int", 5), ("float", 1), ("bool", 1), ("number", 1)])
         case = {"leaves": leaves, "abstracts": abstracts, "numkind": numkind, "builtins": [],
@@ -421,6 +482,12 @@ class Prop(Check):
             if rng.chance(0.2):
                 entry.append(rng.choice(values))
             case["builtins"].append(entry)
+        # how the builtins reach the metamodel (at construction / filled into the user's dict afterwards / ...)
+        if case["builtins"]:
+            case["bmode"] = rng.weighted([("ctor", 3), ("late", 3), ("part", 2), ("hist", 1), ("assign", 2)])
+            case["bsplit"] = rng.randint(1, len(case["builtins"]))
+        else:
+            case["bmode"] = rng.choice(["ctor", "none", "assign"])
         # tree of named objects
         budget = [rng.randint(2, 10)]
 
@@ -527,6 +594,24 @@ class Prop(Check):
                 return not falsy
 
         kw = {"textx_tools_support": True} if case.get("tools") else {}
+        bmode = bmode_of(case)
+        blist = [None] * len(case["builtins"])   # (key, object) per entry of the case, for the identities
+        user_dict = {}                           # the dict the user hands over and keeps a reference to
+        pending = []                             # entries put into user_dict after the metamodel exists
+        ucls = None
+
+        def make(b, mm):
+            nm, kind = b[0], b[1]
+            own = b[2] if len(b) > 2 else nm
+            if kind == "foreign":
+                return Foreign(own)
+            if ucls is not None:
+                return ucls[kind](parent=None, name=own, kids=[])
+            c = mm[kind]
+            o = c.__new__(c)
+            o.name = own
+            return o
+
         try:
             if case.get("user"):
                 def mkcls(nm):
@@ -539,28 +624,33 @@ class Prop(Check):
                     return type(nm, (object,), d)
 
                 ucls = {f"L{k}": mkcls(f"L{k}") for k in range(nleaf)}
-                blist = []
-                for b in case["builtins"]:
-                    nm, kind = b[0], b[1]
-                    own = b[2] if len(b) > 2 else nm
-                    blist.append((nm, Foreign(own) if kind == "foreign" else ucls[kind](parent=None, name=own, kids=[])))
-                builtins = dict(blist)
-                mm = metamodel_from_str(grammar, classes=list(ucls.values()), builtins=builtins, **kw)
-            else:
+                kw["classes"] = list(ucls.values())
+            # which entries are in the dict when the metamodel is constructed
+            early = []
+            for i, b in enumerate(case["builtins"]):
+                can = ucls is not None or b[1] == "foreign"
+                if bmode == "ctor" or (bmode == "part" and can and i < case.get("bsplit", 1)):
+                    early.append(i)
+            for i in early:
+                blist[i] = (case["builtins"][i][0], make(case["builtins"][i], None))
+                user_dict[blist[i][0]] = blist[i][1]
+            if bmode == "assign":
                 mm = metamodel_from_str(grammar, **kw)
-                blist = []
-                for b in case["builtins"]:
-                    nm, kind = b[0], b[1]
-                    own = b[2] if len(b) > 2 else nm
-                    if kind == "foreign":
-                        blist.append((nm, Foreign(own)))
-                    else:
-                        c = mm[kind]
-                        o = c.__new__(c)
-                        o.name = own
-                        blist.append((nm, o))
-                builtins = dict(blist)
-                mm.builtins = builtins
+            elif bmode == "none":
+                mm = metamodel_from_str(grammar, builtins=None, **kw)
+            else:
+                mm = metamodel_from_str(grammar, builtins=user_dict, **kw)
+            for i, b in enumerate(case["builtins"]):
+                if blist[i] is None:
+                    blist[i] = (b[0], make(b, mm))
+                    pending.append(blist[i])
+            if bmode == "assign":
+                user_dict.update(pending)
+                pending = []
+                mm.builtins = user_dict
+            elif not (bmode == "hist" and case.get("prior")):
+                user_dict.update(pending)        # through the user's own reference, not mm.builtins
+                pending = []
         except Exception as e:
             return {"outcome": "grammar-error", "type": type(e).__name__, "msg": str(e)[:300]}
 
@@ -574,6 +664,7 @@ class Prop(Check):
                 prior = type(e).__name__
             except Exception as e:
                 return {"outcome": "error", "kind": "other:prior:" + type(e).__name__, "idx": -1, "msg": str(e)[:200]}
+        user_dict.update(pending)                # bmode hist: the builtins are registered between the two models
 
         try:
             model = mm.model_from_str(text)
@@ -672,9 +763,18 @@ class Prop(Check):
         ridx = {"Model": 0, "Elem": 1, "R": 2 + nA + nL}
         ridx.update({f"A{j}": 2 + j for j in range(nA)})
         ridx.update({f"L{k}": 2 + nA + k for k in range(nL)})
+        ridx["MATCH"] = ridx["R"] + 1   # stands for the match rules (base types, Dotted) among the alternatives
+
+        def galt(alt):
+            if isinstance(alt, list):   # string matches around a rule reference
+                return [ridx[a] if is_rule_ref(a) else None for a in alt]
+            if is_rule_ref(alt):
+                return ridx[alt]
+            return None if alt[0] == "'" else ridx["MATCH"]
+
         gram = [[1, [1]], [0, [ridx[f"L{k}"] for k in range(nL)] + [ridx["R"]]]]
-        gram += [[0, [ridx[a] for a in alts]] for alts in case["abstracts"]]
-        gram += [[1, []] for _ in range(nL)] + [[1, []]]
+        gram += [[0, [galt(a) for a in alts]] for alts in case["abstracts"]]
+        gram += [[1, []] for _ in range(nL)] + [[1, []], [0, []]]
         objmap = [[CLS_R if c == "R" else cls_num(c), ridx.get(c, len(gram) + 7)] for c in classes]
         tgtmap = [[cls_num(t), ridx[t]] for t in targets_of(case) if t != "OBJECT"]
         return {
@@ -815,6 +915,20 @@ class Prop(Check):
             c = copy.deepcopy(case)
             del c["builtins"][i]
             yield c
+        for j, alts in enumerate(case["abstracts"]):
+            for i, a in enumerate(alts):
+                c = copy.deepcopy(case)
+                if alt_rule(a) is None:
+                    del c["abstracts"][j][i]          # drop a match alternative
+                elif isinstance(a, list):
+                    c["abstracts"][j][i] = alt_rule(a)  # plain reference instead of the sequence
+                else:
+                    continue
+                yield c
+        if case.get("bmode") not in (None, "ctor") and case.get("user"):
+            c = copy.deepcopy(case)
+            c["bmode"] = "ctor"
+            yield c
         for flag in ("prior", "tools", "falsy", "user"):
             if case.get(flag):
                 c = copy.deepcopy(case)
@@ -831,7 +945,7 @@ class Prop(Check):
     def sample_view(self, case, obs):
         return {"grammar": grammar_of(case), "text": render(case)[0], "builtins": case["builtins"],
                 "user_classes": case.get("user", False), "falsy_instances": case.get("falsy", False),
-                "textx_tools_support": case.get("tools", False),
+                "textx_tools_support": case.get("tools", False), "builtins_mode": bmode_of(case),
                 "prior_model": render(prior_case(case))[0] if case.get("prior") else None, "impl": obs}
 
     def extra_search(self, rng, tier, broken):
@@ -865,4 +979,13 @@ class Prop(Check):
                 "user_class_cases": sum(1 for c in cases if c.get("user")),
                 "falsy_instance_cases": sum(1 for c in cases if c.get("falsy")),
                 "textx_tools_support_cases": sum(1 for c in cases if c.get("tools")),
-                "prior_model_cases": sum(1 for c in cases if c.get("prior"))}
+                "prior_model_cases": sum(1 for c in cases if c.get("prior")),
+                "builtins_mode_cases_with_entries": {m: sum(1 for c in cases if c["builtins"] and bmode_of(c) == m)
+                                                     for m in ("ctor", "late", "part", "hist", "assign")},
+                "references_to_abstract_target_with_match_alternative": sum(
+                    1 for c in cases for r in number(c)[1]
+                    if r["t"][0] == "A" and any(alt_rule(a) is None for a in c["abstracts"][int(r["t"][1:])])),
+                "abstract_rules_match_alternative_before_common": sum(
+                    1 for c in cases for alts in c["abstracts"]
+                    if any(alt_rule(a) is None and any(alt_rule(b) is not None for b in alts[i + 1:])
+                           for i, a in enumerate(alts)))}
